@@ -228,7 +228,15 @@ func c06WellFormed(t *rapid.T) (data []byte, meta [][2]string, recs []vformat.Re
 		}
 	}
 	var err error
-	data, err = vformat.Encode(vformat.Meta(meta), recs, opts)
+	metaText := vformat.Meta(meta)
+	if rapid.IntRange(0, 5).Draw(t, "blankMetaLines") == 0 && len(metaText) < vformat.MaxMetaLen-4 {
+		// empty lines carry no key: they may stand anywhere between (or before) the "key: value" lines
+		lines := strings.SplitAfter(metaText, "\n")
+		at := rapid.IntRange(0, len(lines)-1).Draw(t, "blankAt")
+		metaText = strings.Join(lines[:at], "") + "\n" + strings.Join(lines[at:], "")
+		vstats.Label("blankLineInMetadata")
+	}
+	data, err = vformat.Encode(metaText, recs, opts)
 	if err != nil {
 		t.Fatalf("harness: encode: %v", err)
 	}
